@@ -206,6 +206,23 @@ fn run_raw(ctx: &mut Ctx) {
             v.append(&mut rest);
             Bytes(v)
         }),
+        // byte strings that are not a binary encoding and reach the text fallback: JSON tokens,
+        // escapes (also the braced form) and hex groups in any order, half of them inside quotes
+        2 => (vec(0..super::c02::TOKENS.len(), 0..10), 0u8..4).prop_map(|(ix, wrap)| {
+            let mut v: Vec<u8> = vec![];
+            match wrap {
+                0 => v.push(b'"'),
+                1 => v.extend_from_slice(b"{\"k\":\""),
+                _ => {}
+            }
+            v.extend(ix.into_iter().flat_map(|i| super::c02::TOKENS[i].iter().copied()));
+            match wrap {
+                0 => v.push(b'"'),
+                1 => v.extend_from_slice(b"\"}"),
+                _ => {}
+            }
+            Bytes(v)
+        }),
     ];
     run_strategy(ctx, "C10", "raw", cases, strat, check_bytes);
 }
